@@ -1465,6 +1465,11 @@ class ModelBuilder:
                     scenario_idx = self._get_scenario_index(obj.project, scenario_id)
                     if scenario_idx is not None and attr_data and isinstance(attr_data, tuple):
                         attr_key, attr_value = attr_data
+                        if attr_key in ("duration", "length") and isinstance(attr_value, str):
+                            # The plain 'duration'/'length' attributes are not supported by the
+                            # builder (they are dropped); storing the raw text for one scenario
+                            # made the scheduler compare a string with a number and crash.
+                            continue
                         obj[(attr_key, scenario_idx)] = attr_value
                         # Nested scenarios inherit from their parent scenario: hand the value
                         # down to every descendant that does not override it itself.
